@@ -25,6 +25,12 @@
 //! `zcg  <dim> <pool> <order> <parts> <n> <family> <layout> <seed> <reuse> [=> <code…>]`
 //!      the same two algorithms on points (and integer weights) GENERATED from the descriptor (see
 //!      `gen_family`, `apply_layout`, `gen_int_weights`): the large-n / corner / reuse stream. Same outs.
+//! `cx <kind> <pool> <count> <seed>`  kind in global | task | many | types: `<count>` generated hilg/zcg cases called on the
+//!      global rayon pool / from inside a rayon task / all at once from `par_iter` / with every weight container type,
+//!      each result compared with the sequential call in `pool.install` (`context-dependent@…`, `input-type-dependent@…`).
+//! `seq | <op> | <op> …`  the listed ops run first-thing, in this order, in a fresh CHILD PROCESS (`verif-harness replay`);
+//!      their canonical outputs must equal those of this (warm) process (`process-state-dependent@…`).
+//!      Both are implementation-vs-implementation checks (model line: `skip …`); the calls are also run as ordinary ops.
 //! other outs: `ok-empty`, `err invalid-order`, `panic file:line: msg`, `hang`.
 
 use crate::common::*;
@@ -56,16 +62,51 @@ fn pts3(c: &[f64]) -> Vec<Point3D> {
     c.chunks(3).map(|p| Point3D::new(p[0], p[1], p[2])).collect()
 }
 
-/// Weights for which every summation order gives the same `f64` sums.
+/// Weights for which every summation order gives the same `f64` sums: non-negative finite values
+/// that are all multiples of one power of two `2^q` with a total below `2^53 * 2^q` (every partial
+/// sum is then exactly representable). Integer weights with a sum below 2^53, power-of-two
+/// multiples of them and subnormal weights are instances; `-0.0` counts as zero. Same rule in the
+/// Lean driver (`exactWeights`).
 fn exact_weights(ws: &[f64]) -> bool {
-    let mut sum = 0u64;
+    let mut ds: Vec<(u64, u32)> = Vec::with_capacity(ws.len());
     for &w in ws {
-        if !(w.is_finite() && w >= 0.0 && w == w.trunc() && w < 9007199254740992.0) || (w == 0.0 && w.is_sign_negative()) {
+        let b = w.to_bits();
+        if b == 0x8000_0000_0000_0000 {
+            continue;
+        }
+        if b >> 63 != 0 {
             return false;
         }
-        sum = sum.saturating_add(w as u64);
+        let ef = (b >> 52) as u32;
+        let mant = b & ((1u64 << 52) - 1);
+        if ef == 0x7ff {
+            return false;
+        }
+        let (m, e) = if ef == 0 { (mant, 0) } else { (mant | (1u64 << 52), ef - 1) };
+        if m == 0 {
+            continue;
+        }
+        let tz = m.trailing_zeros();
+        ds.push((m >> tz, e + tz));
     }
-    sum < (1u64 << 53)
+    let q = ds.iter().map(|d| d.1).min().unwrap_or(0);
+    let mut sum: u128 = 0;
+    for (m, e) in ds {
+        if e - q > 53 {
+            return false;
+        }
+        sum += (m as u128) << (e - q);
+    }
+    sum < (1u128 << 53)
+}
+
+/// `-0.0` replaced by `+0.0`; `None` when there is no negative zero.
+fn without_negzero(xs: &[f64]) -> Option<Vec<f64>> {
+    if xs.iter().any(|x| x.to_bits() == 0x8000_0000_0000_0000) {
+        Some(xs.iter().map(|x| if *x == 0.0 { 0.0 } else { *x }).collect())
+    } else {
+        None
+    }
 }
 
 /// The model re-runs the quantile refinement when it is reproducible (`exact`) and cheap enough
@@ -241,7 +282,7 @@ fn run_wq(ctx: &mut Ctx, t: &mut Toks, scaled: bool) -> Option<()> {
             Ok(p) | Err(p) => p,
         })
         .collect();
-    let exact = exact_weights(&ws_base) && scale.map(pow2_scale).unwrap_or(true);
+    let exact = exact_weights(&ws);
     let src = if own_refinement(exact, n, parts) { "m" } else { "h" };
     ctx.count(&format!("wq:src:{}", src));
     let mut v = hilbert_oracle(&idx, &ids, parts);
@@ -250,6 +291,20 @@ fn run_wq(ctx: &mut Ctx, t: &mut Toks, scaled: bool) -> Option<()> {
     }
     if v.is_none() && pos.len() + 1 != parts {
         v = Some(("quantiles-count".into(), format!("{} positions for {} parts", pos.len(), parts)));
+    }
+    // signed zero: `-0.0` is a legal non-negative weight; the result must be that of `+0.0`
+    if let (true, Some(wz)) = (v.is_none(), without_negzero(&ws)) {
+        ctx.count("special:negzero-weight:wq");
+        let idx2 = idx.clone();
+        match catch_timeout(WATCHDOG_S, move || with_pool(pool, || coupe::verif::hilbert::weighted_quantiles(&idx2, &wz, parts))) {
+            Caught::Ok(pos0) => {
+                if pos0 != pos {
+                    v = Some(("negzero-dependent@weighted_quantiles".into(), format!("positions {:?} but {:?} with +0.0", &pos[..pos.len().min(8)], &pos0[..pos0.len().min(8)])));
+                }
+            }
+            Caught::Panic(m) => v = Some(("panic".into(), format!("+0.0 run: {} [{}]", m, panic_sig(&m)))),
+            Caught::Hang => v = Some(("hang".into(), "+0.0 run: no answer".into())),
+        }
     }
     // scale invariance: multiplying every weight by a power of two changes no rounding, so the
     // split positions must be IDENTICAL to those of the unscaled weights
@@ -284,6 +339,8 @@ struct HilRan {
     pos: Vec<u64>,
     /// ids and positions of the same call with the UNSCALED weights (scale-invariance check)
     unscaled: Option<(Vec<usize>, Vec<u64>)>,
+    /// ids of the same call with `+0.0` in place of every `-0.0` coordinate and weight
+    poszero: Option<Vec<usize>>,
 }
 
 /// How the call under test is preceded (object / buffer reuse): 0 = fresh algorithm value and
@@ -355,6 +412,11 @@ fn hil_exec(
         None => ws_base.clone(),
     };
     let check_inv = scale.map(pow2_scale).unwrap_or(false) && ws_base.iter().all(|w| w.is_finite());
+    let negzero: Option<(Vec<f64>, Vec<f64>)> = match (without_negzero(&coords), without_negzero(&ws)) {
+        (None, None) => None,
+        (c, w) => Some((c.unwrap_or_else(|| coords.clone()), w.unwrap_or_else(|| ws.clone()))),
+    };
+    let has_negzero = negzero.is_some();
     let wb = ws_base.clone();
     let (coords2, ws2) = (coords.clone(), ws.clone());
     let r = catch_timeout(WATCHDOG_S, move || {
@@ -405,7 +467,20 @@ fn hil_exec(
             } else {
                 None
             };
-            HilRan { res, ids, idx, pos, unscaled }
+            let poszero = match (&negzero, res.is_ok() && n > 0) {
+                (Some((cz, wz)), true) => {
+                    let mut ids0 = vec![UNWRITTEN; n];
+                    let mut alg0 = coupe::HilbertCurve { part_count: parts, order: order as u32 };
+                    if dim == 2 {
+                        let _ = alg0.partition(&mut ids0, (&pts2(cz)[..], wz.clone()));
+                    } else {
+                        let _ = alg0.partition(&mut ids0, (&pts3(cz)[..], wz.clone()));
+                    }
+                    Some(ids0)
+                }
+                _ => None,
+            };
+            HilRan { res, ids, idx, pos, unscaled, poszero }
         })
     });
     if let Some((out, v)) = caught_out(&r) {
@@ -453,7 +528,18 @@ fn hil_exec(
                     ));
                 }
             }
-            let exact = exact_weights(&ws_base) && scale.map(pow2_scale).unwrap_or(true);
+            if has_negzero {
+                ctx.count("special:negzero:hil");
+            }
+            if let (true, Some(ids0)) = (v.is_none(), &ran.poszero) {
+                if *ids0 != ran.ids {
+                    v = Some((
+                        "negzero-dependent@HilbertCurve".to_string(),
+                        format!("{} ids differ from the run with +0.0 in place of -0.0", ids0.iter().zip(&ran.ids).filter(|(a, b)| a != b).count()),
+                    ));
+                }
+            }
+            let exact = exact_weights(&ws);
             let src = if own_refinement(exact, n, parts) { "m" } else { "h" };
             ctx.count(&format!("hil:src:{}", src));
             ctx.count(&format!("hil:dim{}:pool{}", dim, pool));
@@ -541,6 +627,8 @@ struct ZcRan {
     ids: Vec<usize>,
     perm: Vec<usize>,
     codes: Vec<Vec<u8>>,
+    /// ids of the same call with `+0.0` in place of every `-0.0` coordinate
+    poszero: Option<Vec<usize>>,
 }
 
 fn run_zc(ctx: &mut Ctx, t: &mut Toks) -> Option<()> {
@@ -575,6 +663,10 @@ fn run_zc(ctx: &mut Ctx, t: &mut Toks) -> Option<()> {
 #[allow(clippy::too_many_arguments)]
 fn zc_exec(ctx: &mut Ctx, base: String, dim: usize, pool: usize, order: u64, parts: usize, n: usize, coords: Vec<f64>, reuse: usize) {
     let coords2 = coords.clone();
+    let negzero = without_negzero(&coords);
+    if negzero.is_some() {
+        ctx.count("special:negzero:zc");
+    }
     let r = catch_timeout(WATCHDOG_S, move || {
         with_pool(pool, || {
             let mut ids = vec![UNWRITTEN; n];
@@ -592,7 +684,12 @@ fn zc_exec(ctx: &mut Ctx, base: String, dim: usize, pool: usize, order: u64, par
                 alg.partition(&mut ids, &p[..]).unwrap();
                 let perm = coupe::verif::z_curve::permutation::<2>(&p, order as u32);
                 let codes = coupe::verif::z_curve::codes::<2>(&p, order as u32);
-                ZcRan { ids, perm, codes }
+                let poszero = negzero.as_ref().map(|cz| {
+                    let mut ids0 = vec![UNWRITTEN; n];
+                    coupe::ZCurve { part_count: parts, order: order as u32 }.partition(&mut ids0, &pts2(cz)[..]).unwrap();
+                    ids0
+                });
+                ZcRan { ids, perm, codes, poszero }
             } else {
                 let p = pts3(&coords2);
                 if reuse == 1 {
@@ -606,7 +703,12 @@ fn zc_exec(ctx: &mut Ctx, base: String, dim: usize, pool: usize, order: u64, par
                 alg.partition(&mut ids, &p[..]).unwrap();
                 let perm = coupe::verif::z_curve::permutation::<3>(&p, order as u32);
                 let codes = coupe::verif::z_curve::codes::<3>(&p, order as u32);
-                ZcRan { ids, perm, codes }
+                let poszero = negzero.as_ref().map(|cz| {
+                    let mut ids0 = vec![UNWRITTEN; n];
+                    coupe::ZCurve { part_count: parts, order: order as u32 }.partition(&mut ids0, &pts3(cz)[..]).unwrap();
+                    ids0
+                });
+                ZcRan { ids, perm, codes, poszero }
             }
         })
     });
@@ -618,7 +720,17 @@ fn zc_exec(ctx: &mut Ctx, base: String, dim: usize, pool: usize, order: u64, par
         return;
     }
     let Caught::Ok(ran) = r else { unreachable!() };
-    let v = zcurve_oracle(&ran.codes, &ran.perm, &ran.ids, parts);
+    let mut v = zcurve_oracle(&ran.codes, &ran.perm, &ran.ids, parts);
+    if let (true, Some(ids0)) = (v.is_none(), &ran.poszero) {
+        // equal cells may be split differently by the unstable sort only if the inputs differ as
+        // sort keys; -0.0 and +0.0 compare equal everywhere, so the ids must be identical
+        if *ids0 != ran.ids {
+            v = Some((
+                "negzero-dependent@ZCurve".to_string(),
+                format!("{} ids differ from the run with +0.0 in place of -0.0", ids0.iter().zip(&ran.ids).filter(|(a, b)| a != b).count()),
+            ));
+        }
+    }
     let a: Vec<String> = ran.perm.iter().map(|&p| ran.codes.get(p).map(|c| code_str(c)).unwrap_or("?".into())).collect();
     let mut pairs: Vec<(&Vec<u8>, usize)> = ran.codes.iter().zip(ran.ids.iter().copied()).collect();
     pairs.sort();
@@ -856,6 +968,8 @@ pub fn run_op(ctx: &mut Ctx, op: &str) {
         Some("zc") => run_zc(ctx, &mut t),
         Some("hilg") => run_hilg(ctx, &mut t),
         Some("zcg") => run_zcg(ctx, &mut t),
+        Some("cx") => run_cx(ctx, &mut t),
+        Some("seq") => run_seq(ctx, op),
         _ => None,
     };
     if r.is_none() {
@@ -1228,7 +1342,14 @@ pub fn generate(ctx: &mut Ctx) {
     corner_stream(ctx);
     // (6) WEIGHT-SCALE stream (defect N6): the same inputs with every weight multiplied by a scale
     scale_stream(ctx);
-    // (7) malformed stream
+    // (7) deep orders with ulp-neighbours AT the corners / faces of the bounding box
+    zc_box_corner_stream(ctx);
+    // (8) SPECIAL VALUES: signed zeros (coordinates, weights), subnormal and near-overflow totals
+    negzero_stream(ctx);
+    // (9) calling CONTEXT (global pool, inside a rayon task, concurrent calls, input types) and
+    // FIRST-CALL sequences in a fresh child process
+    context_stream(ctx);
+    // (10) malformed stream
     for _ in 0..ctx.budget(20, 200) {
         let n = 1 + ctx.rng.usize(5);
         let (c, _) = gen_points(ctx, n, 2, true);
@@ -1486,6 +1607,30 @@ fn scale_stream(ctx: &mut Ctx) {
             ctx.count(&format!("scale:{:e}", sc));
             run_op(ctx, &format!("{} {} {}", head_tail.0.replace("POOL", "1"), hex(sc), head_tail.1));
         }
+        // subnormal totals, the smallest normal on both sides, a total just below overflow
+        let total: f64 = w.iter().sum();
+        let mut extreme: Vec<(f64, &str)> = vec![
+            (f64::from_bits(1), "5e-324"),
+            (1e-310, "1e-310"),
+            (f64::MIN_POSITIVE, "2^-1022"),
+            (f64::MIN_POSITIVE / 2.0, "2^-1023"),
+            (f64::MIN_POSITIVE * 2.0, "2^-1021"),
+        ];
+        if total.is_finite() && total > 0.0 {
+            // 2^e with total * 2^e in [2^1023, 2^1024): finite, but (p + 1) * total overflows
+            let e = 1023 - total.log2().floor() as i32;
+            let sc = (2.0f64).powi(e.clamp(-1000, 1000));
+            if (total * sc).is_finite() && w.iter().all(|x| (x * sc).is_finite()) {
+                extreme.push((sc, "near-overflow"));
+            }
+        }
+        for (sc, name) in extreme {
+            let scaled: Vec<f64> = w.iter().map(|x| x * sc).collect();
+            // any pool when every sum is exact (integer multiples of one power of two, subnormals)
+            let pool = if multi && exact_weights(&scaled) { big_pool } else { 1 };
+            ctx.count(&format!("special:magnitude:{}", name));
+            run_op(ctx, &format!("{} {} {}", head_tail.0.replace("POOL", &pool.to_string()), hex(sc), head_tail.1));
+        }
         for (sc, name) in POW2_SCALES.iter().zip(["2^-60", "2^-30", "2^30"]) {
             ctx.count(&format!("scale:{}", name));
             ctx.count(&format!("scale:pow2:pool{}", big_pool));
@@ -1498,4 +1643,543 @@ fn scale_stream(ctx: &mut Ctx) {
          positions and ids identical to the unscaled run, and exact comparison with the model's own refinement)"
             .to_string(),
     );
+}
+
+/// `v` moved by `k` units in the last place towards +infinity (`up`) or -infinity.
+fn ulps(v: f64, k: u64, up: bool) -> f64 {
+    if v == 0.0 {
+        return if up { f64::from_bits(k) } else { -f64::from_bits(k) };
+    }
+    let b = v.to_bits();
+    f64::from_bits(if (v > 0.0) == up { b + k } else { b - k })
+}
+
+/// Deep orders (beyond float resolution) on small sets with ulp-neighbours ON the bounding box:
+/// a point exactly at the minimum (maximum) on an axis and others 1-3 ulps further in, on one
+/// axis (collinear sets: the other axes are degenerate from the start) or on all (sets mirrored in
+/// x and y, so that the oriented box is the axis-aligned one), on a face (extreme on x, interior
+/// on y), small lattices; orders 54/55/56/60/64 in 2-D, 40/41/42 in 3-D (boxes [8, 8 + 2^-7] whose
+/// cells are one float wide at depth 42); every part count 1..=n (quick: 2, 3, n-1, n and two
+/// random ones), so that part boundaries fall between ulp-neighbours; input order as built,
+/// reversed and shuffled. (Added after seeded change C09-r2-1.)
+fn zc_box_corner_stream(ctx: &mut Ctx) {
+    // fixed core (every run): 8 collinear points with an ulp-neighbour of the box minimum /
+    // maximum, as built and reversed, a part boundary between the neighbours (n and n-1 parts)
+    for (dim, lo, hi, orders) in [
+        (2usize, -4.0f64, 4.0f64, [55u64, 64]),
+        (2, -1.0, 3.0, [55, 64]),
+        (2, 2.0, 10.0, [56, 64]),
+        (2, 8.0, 8.0078125, [45, 64]),
+        (3, 8.0, 8.0078125, [42, 41]),
+        (3, -8.0, -7.9921875, [42, 41]),
+    ] {
+        for at_max in [false, true] {
+            let nb = if at_max { ulps(hi, 1, false) } else { ulps(lo, 1, true) };
+            let w = hi - lo;
+            let xs = [lo, nb, hi, lo + w * 0.625, lo + w * 0.1875, lo + w * 0.5625, lo + w * 0.875, lo + w * 0.375];
+            for reversed in [false, true] {
+                let mut c: Vec<f64> = Vec::new();
+                let it: Vec<f64> = if reversed { xs.iter().rev().copied().collect() } else { xs.to_vec() };
+                for x in it {
+                    c.push(x);
+                    c.extend(std::iter::repeat(0.0).take(dim - 1));
+                }
+                for order in orders {
+                    for k in [8usize, 7] {
+                        ctx.count("corner:zc-box-core-line");
+                        run_op(ctx, &format!("zc {} 1 {} {} 8 {}", dim, order, k, fmt_f(&c)));
+                    }
+                }
+            }
+        }
+    }
+    let sets = ctx.budget(16, 120);
+    for _ in 0..sets {
+        let kind = ctx.rng.usize(5);
+        let (dim, mut pts, name): (usize, Vec<Vec<f64>>, &str) = match kind {
+            0 | 1 => {
+                // collinear along x; 2-D: wide boxes, 3-D (and some 2-D): [lo, lo + 2^-7]
+                let dim = if kind == 0 { 2 } else { 3 };
+                let (lo, hi) = if dim == 3 || ctx.rng.chance(1, 4) {
+                    let lo = [8.0, -8.0, 1.0][ctx.rng.usize(3)];
+                    let w = [0.0078125, 0.001953125][ctx.rng.usize(2)] * if lo == 1.0 { 0.125 } else { 1.0 };
+                    (lo, lo + w)
+                } else {
+                    [(-4.0, 4.0), (-1.0, 3.0), (-4.0, 1.0), (2.0, 10.0)][ctx.rng.usize(4)]
+                };
+                let mut xs = vec![lo, hi];
+                let at = ctx.rng.usize(3); // 0 = min corner, 1 = max corner, 2 = both
+                if at != 1 {
+                    for k in 1..=1 + ctx.rng.below(3) {
+                        xs.push(ulps(lo, k, true));
+                    }
+                }
+                if at != 0 {
+                    for k in 1..=1 + ctx.rng.below(3) {
+                        xs.push(ulps(hi, k, false));
+                    }
+                }
+                let n = 8 + ctx.rng.usize(9);
+                while xs.len() < n {
+                    let t = ctx.rng.below(1 << 20) as f64 / (1u64 << 20) as f64;
+                    xs.push(lo + (hi - lo) * t);
+                }
+                let yz = if ctx.rng.chance(1, 2) { 0.0 } else { lo };
+                (dim, xs.into_iter().map(|x| if dim == 2 { vec![x, yz] } else { vec![x, yz, yz] }).collect(), "line")
+            }
+            2 | 3 => {
+                // mirrored rectangle [-a, a] x [-b, b]: corner clusters (x only / x and y), face pair
+                let (a, b) = [(4.0, 2.0), (4.0, 4.0), (1.0, 0.5), (6.0, 1.5)][ctx.rng.usize(4)];
+                let mut quad: Vec<(f64, f64)> = vec![(a, b)];
+                let k = 1 + ctx.rng.below(3);
+                if kind == 2 {
+                    quad.push((ulps(a, k, false), b));
+                } else {
+                    quad.push((ulps(a, k, false), ulps(b, 1 + ctx.rng.below(2), false)));
+                }
+                if ctx.rng.chance(1, 2) {
+                    let y = b * (1 + ctx.rng.below(7)) as f64 / 8.0;
+                    quad.push((a, y));
+                    quad.push((ulps(a, 1, false), y));
+                }
+                while quad.len() < 4 {
+                    quad.push((a * ctx.rng.below(8) as f64 / 8.0, b * ctx.rng.below(8) as f64 / 8.0));
+                }
+                let mut pts = Vec::new();
+                for (x, y) in quad {
+                    for (sx, sy) in [(1.0, 1.0), (-1.0, -1.0), (1.0, -1.0), (-1.0, 1.0)] {
+                        pts.push(vec![x * sx, y * sy]);
+                    }
+                }
+                (2, pts, if kind == 2 { "mirrored-x" } else { "mirrored-xy" })
+            }
+            _ => {
+                // small lattice with one extra ulp-neighbour of the minimum (or maximum) corner
+                let (lo, hi) = [(-4.0, 4.0), (-2.0, 6.0), (8.0, 8.0078125)][ctx.rng.usize(3)];
+                let (nx, ny) = (3 + ctx.rng.usize(2), 2 + ctx.rng.usize(2));
+                let mut pts = Vec::new();
+                for i in 0..nx {
+                    for j in 0..ny {
+                        pts.push(vec![
+                            lo + (hi - lo) * i as f64 / (nx - 1) as f64,
+                            lo + (hi - lo) * 0.5 * j as f64 / (ny - 1) as f64,
+                        ]);
+                    }
+                }
+                let k = 1 + ctx.rng.below(2);
+                if ctx.rng.chance(1, 2) {
+                    pts.push(vec![ulps(lo, k, true), lo]);
+                } else {
+                    pts.push(vec![ulps(hi, k, false), lo + (hi - lo) * 0.5]);
+                }
+                (2, pts, "lattice")
+            }
+        };
+        match ctx.rng.usize(3) {
+            0 => pts.reverse(),
+            1 => ctx.rng.shuffle(&mut pts),
+            _ => {}
+        }
+        let n = pts.len();
+        let c: Vec<f64> = pts.into_iter().flatten().collect();
+        let orders: Vec<u64> = if dim == 2 { vec![54, 55, 56, 60, 64] } else { vec![40, 41, 42] };
+        let mut part_counts: Vec<usize> = if ctx.quick() {
+            vec![2, 3, n - 1, n, 1 + ctx.rng.usize(n), 1 + ctx.rng.usize(n)]
+        } else {
+            (1..=n).collect()
+        };
+        part_counts.dedup();
+        for &order in &orders {
+            for &k in &part_counts {
+                ctx.count(&format!("corner:zc-box-{}", name));
+                ctx.count(&format!("zc:order:deep:{}", if order >= 54 { "54+" } else { "13-53" }));
+                run_op(ctx, &format!("zc {} 1 {} {} {} {}", dim, order, k, n, fmt_f(&c)));
+            }
+        }
+    }
+}
+
+/// Signed zeros. Point-symmetric integer lattices (`p` and `-p`: negating `0.0` is how `-0.0`
+/// arises) whose zero coordinates are at the first cut of the box, with an odd or an even number
+/// of them negative; zero weights with a random subset negative. Every runner compares the result
+/// with the run that has `+0.0` in their place (`negzero-dependent@…`); the model computes with
+/// `+0.0`.
+fn negzero_stream(ctx: &mut Ctx) {
+    for _ in 0..ctx.budget(40, 600) {
+        let dim = 2 + ctx.rng.usize(2);
+        let half = 1 + ctx.rng.usize(20);
+        let pool = *ctx.rng.pick(&POOLS);
+        let mut c: Vec<f64> = Vec::new();
+        for _ in 0..half {
+            let q: Vec<i64> = (0..dim).map(|_| ctx.rng.range(-3, 3) * ctx.rng.range(0, 1)).collect();
+            c.extend(q.iter().map(|x| *x as f64));
+            c.extend(q.iter().map(|x| -(*x as f64)));
+        }
+        // force the parity of the number of negative zeros
+        let want_odd = ctx.rng.chance(1, 2);
+        let zeros: Vec<usize> = (0..c.len()).filter(|i| c[*i] == 0.0).collect();
+        let neg = zeros.iter().filter(|i| c[**i].is_sign_negative()).count();
+        if !zeros.is_empty() && (neg % 2 == 1) != want_odd {
+            let i = zeros[ctx.rng.usize(zeros.len())];
+            c[i] = -c[i];
+        }
+        let n = 2 * half;
+        let parts = gen_parts(ctx, n);
+        let mut w: Vec<f64> = (0..n).map(|_| if ctx.rng.chance(1, 2) { 0.0 } else { ctx.rng.range(1, 5) as f64 }).collect();
+        for x in w.iter_mut() {
+            if *x == 0.0 && ctx.rng.chance(1, 2) {
+                *x = -0.0;
+            }
+        }
+        ctx.count(&format!("special:negzero-coords:{}", if want_odd { "odd" } else { "even" }));
+        match ctx.rng.usize(3) {
+            0 => {
+                let order = 1 + ctx.rng.usize(if dim == 2 { 32 } else { 21 });
+                run_op(ctx, &format!("hil {} {} {} {} {} {} {}", dim, pool, order, parts, n, fmt_f(&c), fmt_f(&w)));
+            }
+            1 => {
+                let order = ctx.rng.usize(13);
+                run_op(ctx, &format!("zc {} {} {} {} {} {}", dim, pool, order, parts, n, fmt_f(&c)));
+            }
+            _ => {
+                let idx: Vec<u64> = (0..n).map(|_| ctx.rng.below(40)).collect();
+                run_op(ctx, &format!("wq {} {} {} {} {}", pool, parts.max(1), n, join(&idx), fmt_f(&w)));
+            }
+        }
+    }
+    // totals close to overflow made of a few huge weights (1-thread pool: the sums are rounded)
+    for _ in 0..ctx.budget(12, 150) {
+        let n = 3 + ctx.rng.usize(10);
+        let mut w: Vec<f64> = (0..n).map(|_| [1.0, 1e300, 1e-300, 3e305][ctx.rng.usize(4)]).collect();
+        w[0] = f64::MAX / 2.0;
+        w[1] = 5e307;
+        if ctx.rng.chance(1, 2) {
+            w[2] = 2.9e307; // total * 1.01 overflows
+        }
+        ctx.rng.shuffle(&mut w);
+        let parts = 1 + ctx.rng.usize(n + 2);
+        let idx: Vec<u64> = (0..n).map(|_| ctx.rng.below(1 << 30)).collect();
+        ctx.count("special:magnitude:huge-weights");
+        run_op(ctx, &format!("wq 1 {} {} {} {}", parts, n, join(&idx), fmt_f(&w)));
+    }
+}
+
+// ------------------------------------------------------------------ calling context, process state
+
+#[derive(Clone)]
+struct CxCase {
+    hil: bool,
+    dim: usize,
+    order: u64,
+    parts: usize,
+    n: usize,
+    family: usize,
+    layout: usize,
+    wmode: usize,
+    seed: u64,
+    coords: Vec<f64>,
+    ws: Vec<f64>,
+}
+
+impl CxCase {
+    /// the ordinary op line of this case (same generated input)
+    fn op(&self, pool: usize) -> String {
+        if self.hil {
+            format!("hilg {} {} {} {} {} {} {} {} {} 0", self.dim, pool, self.order, self.parts, self.n, self.family, self.layout, self.wmode, self.seed)
+        } else {
+            format!("zcg {} {} {} {} {} {} {} {} 0", self.dim, pool, self.order, self.parts, self.n, self.family, self.layout, self.seed)
+        }
+    }
+    /// one call of the public API in the CURRENT rayon context
+    fn call(&self) -> Vec<usize> {
+        let mut ids = vec![UNWRITTEN; self.n];
+        if self.hil {
+            let mut alg = coupe::HilbertCurve { part_count: self.parts, order: self.order as u32 };
+            if self.dim == 2 {
+                alg.partition(&mut ids, (&pts2(&self.coords)[..], self.ws.clone())).unwrap();
+            } else {
+                alg.partition(&mut ids, (&pts3(&self.coords)[..], self.ws.clone())).unwrap();
+            }
+        } else {
+            let mut alg = coupe::ZCurve { part_count: self.parts, order: self.order as u32 };
+            if self.dim == 2 {
+                alg.partition(&mut ids, &pts2(&self.coords)[..]).unwrap();
+            } else {
+                alg.partition(&mut ids, &pts3(&self.coords)[..]).unwrap();
+            }
+        }
+        ids
+    }
+    /// the same Hilbert call with every container type `W: AsRef<[f64]>` that is cheap to try
+    fn call_types(&self) -> Vec<(&'static str, Vec<usize>)> {
+        let mut out = Vec::new();
+        if !self.hil {
+            return out;
+        }
+        let w = &self.ws;
+        macro_rules! go {
+            ($name:expr, $w:expr) => {{
+                let mut ids = vec![UNWRITTEN; self.n];
+                let mut alg = coupe::HilbertCurve { part_count: self.parts, order: self.order as u32 };
+                if self.dim == 2 {
+                    alg.partition(&mut ids, (&pts2(&self.coords)[..], $w)).unwrap();
+                } else {
+                    alg.partition(&mut ids, (&pts3(&self.coords)[..], $w)).unwrap();
+                }
+                out.push(($name, ids));
+            }};
+        }
+        go!("&Vec<f64>", w);
+        go!("&[f64]", &w[..]);
+        go!("Box<[f64]>", w.clone().into_boxed_slice());
+        go!("Arc<[f64]>", std::sync::Arc::<[f64]>::from(w.clone()));
+        go!("Cow<[f64]>", std::borrow::Cow::Borrowed(&w[..]));
+        go!("&mut Vec<f64>", &mut w.clone());
+        // points: boxed slice and array-backed instead of Vec
+        if self.dim == 2 {
+            let p: Box<[Point2D]> = pts2(&self.coords).into_boxed_slice();
+            let mut ids = vec![UNWRITTEN; self.n];
+            coupe::HilbertCurve { part_count: self.parts, order: self.order as u32 }.partition(&mut ids, (&p[..], w.clone())).unwrap();
+            out.push(("Box<[Point2D]>", ids));
+        }
+        out
+    }
+}
+
+fn cx_cases(count: usize, seed: u64, big: bool) -> Vec<CxCase> {
+    let mut rng = Rng::new(seed ^ 0xC0_17E7);
+    (0..count)
+        .map(|_| {
+            let hil = rng.chance(1, 2);
+            let dim = 2 + rng.usize(2);
+            let n = if big { 1500 + rng.usize(3000) } else { 2 + rng.usize(600) };
+            let parts = [2, 3, 64, 1 + rng.usize(n), n + 3][rng.usize(5)];
+            let order = if hil { 1 + rng.usize(if dim == 2 { 32 } else { 21 }) } else { rng.usize(7) } as u64;
+            // exact-sum families only (any pool gives the same box), layouts that need no hook
+            let (family, layout, wmode, cseed) = (rng.usize(2), rng.usize(5), rng.usize(6), rng.below(1 << 40));
+            let coords = apply_layout(dim, gen_family(dim, n, family, cseed), layout, cseed, |_| None);
+            let ws = gen_int_weights(n, wmode, cseed);
+            CxCase { hil, dim, order, parts, n, family, layout, wmode, seed: cseed, coords, ws }
+        })
+        .collect()
+}
+
+fn run_cx(ctx: &mut Ctx, t: &mut Toks) -> Option<()> {
+    use coupe::rayon::prelude::*;
+    let kind = t.0.next()?.to_string();
+    let pool = t.usize()?;
+    let count = t.usize()?;
+    let seed = t.u64()?;
+    if !t.at_end() || pool == 0 || pool > 64 || count == 0 || count > 64 || !["global", "task", "many", "types"].contains(&kind.as_str()) {
+        return None;
+    }
+    let op = format!("cx {} {} {} {}", kind, pool, count, seed);
+    let cases = cx_cases(count, seed, kind == "many");
+    let (c1, k1) = (cases.clone(), kind.clone());
+    // reference: the calls one after the other inside `pool.install`; then the same calls in context
+    let r = catch_timeout(2 * WATCHDOG_S, move || {
+        let reference: Vec<Vec<usize>> = with_pool(pool, || c1.iter().map(|c| c.call()).collect());
+        let mut got: Vec<(String, usize, Vec<usize>)> = Vec::new();
+        match k1.as_str() {
+            "global" => {
+                // this watchdog thread belongs to no pool: rayon uses the global one
+                for (i, c) in c1.iter().enumerate() {
+                    got.push(("global-pool".into(), i, c.call()));
+                }
+            }
+            "task" => {
+                let (a, b) = with_pool(pool, || {
+                    let mut spawned: Vec<Vec<usize>> = Vec::new();
+                    coupe::rayon::scope(|s| s.spawn(|_| spawned = c1.iter().map(|c| c.call()).collect()));
+                    let h = c1.len() / 2;
+                    let (x, y): (Vec<Vec<usize>>, Vec<Vec<usize>>) =
+                        coupe::rayon::join(|| c1[..h].iter().map(|c| c.call()).collect(), || c1[h..].iter().map(|c| c.call()).collect());
+                    (spawned, x.into_iter().chain(y).collect::<Vec<_>>())
+                });
+                for (i, ids) in a.into_iter().enumerate() {
+                    got.push(("scope-spawn".into(), i, ids));
+                }
+                for (i, ids) in b.into_iter().enumerate() {
+                    got.push(("join".into(), i, ids));
+                }
+            }
+            "many" => {
+                let all: Vec<Vec<usize>> = with_pool(pool, || c1.par_iter().map(|c| c.call()).collect());
+                for (i, ids) in all.into_iter().enumerate() {
+                    got.push(("concurrent".into(), i, ids));
+                }
+            }
+            _ => {
+                for (i, c) in c1.iter().enumerate() {
+                    for (name, ids) in with_pool(pool, || c.call_types()) {
+                        got.push((name.to_string(), i, ids));
+                    }
+                }
+            }
+        }
+        (reference, got)
+    });
+    let class = if kind == "types" { "plumbing" } else { "context" };
+    ctx.count(&format!("{}:{}:pool{}", class, kind, pool));
+    if let Some((out, v)) = caught_out(&r) {
+        finish(ctx, op, out, false, v);
+        return Some(());
+    }
+    let Caught::Ok((reference, got)) = r else { unreachable!() };
+    let mut v = None;
+    for (name, i, ids) in &got {
+        ctx.count(&format!("{}:{}", class, name));
+        if *ids != reference[*i] {
+            let algo = if cases[*i].hil { "HilbertCurve" } else { "ZCurve" };
+            let sig = if kind == "types" { format!("input-type-dependent@{}", algo) } else { format!("context-dependent@{}", algo) };
+            v = Some((
+                sig,
+                format!(
+                    "{}: {} of {} ids differ from the sequential call in pool.install({}) on `{}`",
+                    name,
+                    ids.iter().zip(&reference[*i]).filter(|(a, b)| a != b).count(),
+                    ids.len(),
+                    pool,
+                    cases[*i].op(pool)
+                ),
+            ));
+            break;
+        }
+    }
+    finish(ctx, op, format!("ok {} calls", got.len()), true, v);
+    // the same inputs as ordinary cases: full oracle and exact comparison with the model
+    for c in cases.iter().take(4) {
+        let line = c.op(pool);
+        run_op(ctx, &line);
+    }
+    Some(())
+}
+
+static SEQ_COUNTER: std::sync::atomic::AtomicUsize = std::sync::atomic::AtomicUsize::new(0);
+
+fn run_seq(ctx: &mut Ctx, op: &str) -> Option<()> {
+    let subs: Vec<String> = op
+        .split('|')
+        .skip(1)
+        .map(|x| x.split("=>").next().unwrap_or("").split_whitespace().collect::<Vec<_>>().join(" "))
+        .filter(|x| !x.is_empty())
+        .collect();
+    if subs.is_empty() || subs.len() > 8 || subs.iter().any(|x| x.starts_with("seq") || x.starts_with("cx")) {
+        return None;
+    }
+    let base = format!("seq | {}", subs.join(" | "));
+    // child process: the sub-ops are the first calls it ever makes
+    let k = SEQ_COUNTER.fetch_add(1, std::sync::atomic::Ordering::Relaxed);
+    let dir = std::env::temp_dir().join(format!("c09-seq-{}-{}", std::process::id(), k));
+    let _ = std::fs::create_dir_all(&dir);
+    let ops_file = dir.join("ops.txt");
+    let text: String = subs.iter().map(|x| format!("C09 {}\n", x)).collect();
+    let child_out: Result<Vec<String>, String> = (|| {
+        std::fs::write(&ops_file, text).map_err(|e| e.to_string())?;
+        let exe = std::env::current_exe().map_err(|e| e.to_string())?;
+        let st = std::process::Command::new(exe)
+            .args(["replay", "C09", "--ops"])
+            .arg(&ops_file)
+            .arg("--out")
+            .arg(&dir)
+            .stdout(std::process::Stdio::null())
+            .stderr(std::process::Stdio::null())
+            .status()
+            .map_err(|e| e.to_string())?;
+        if !st.success() {
+            return Err(format!("child exited with {:?}", st.code()));
+        }
+        let out = std::fs::read_to_string(dir.join("impl.txt")).map_err(|e| e.to_string())?;
+        Ok(out.lines().map(|l| l.to_string()).collect())
+    })();
+    let _ = std::fs::remove_dir_all(&dir);
+    // this (warm) process: ordinary runs of the same ops (recorded, compared with the model)
+    let mut here: Vec<String> = Vec::new();
+    for x in &subs {
+        let before = ctx.impl_out.len();
+        run_op(ctx, x);
+        here.push(ctx.impl_out.get(before).cloned().unwrap_or_default());
+    }
+    ctx.count("context:first-call-sequence");
+    let v = match child_out {
+        Err(e) => Some(("seq-child-failed".to_string(), e)),
+        Ok(lines) => {
+            let mut v = None;
+            if lines.len() != here.len() {
+                v = Some(("seq-child-failed".to_string(), format!("child wrote {} lines for {} ops", lines.len(), here.len())));
+            } else {
+                for (i, (a, b)) in lines.iter().zip(&here).enumerate() {
+                    if a != b {
+                        let algo = if subs[i].starts_with("zc") { "ZCurve" } else { "HilbertCurve" };
+                        v = Some((
+                            format!("process-state-dependent@{}", algo),
+                            format!("op {} of the sequence (`{}…`): a fresh process answers `{}…`, this process `{}…`", i + 1, &subs[i][..subs[i].len().min(40)], &a[..a.len().min(80)], &b[..b.len().min(80)]),
+                        ));
+                        break;
+                    }
+                }
+            }
+            v
+        }
+    };
+    finish(ctx, base, format!("ok {} ops", subs.len()), true, v);
+    Some(())
+}
+
+fn context_stream(ctx: &mut Ctx) {
+    // (a) global pool, (c) inside a rayon task, (d) many calls at once, input types
+    for _ in 0..ctx.budget(1, 6) {
+        let seed = ctx.rng.below(1 << 40);
+        run_op(ctx, &format!("cx global 1 6 {}", seed));
+        for pool in [4usize, 16] {
+            let seed = ctx.rng.below(1 << 40);
+            run_op(ctx, &format!("cx task {} 6 {}", pool, seed));
+            let seed = ctx.rng.below(1 << 40);
+            let count = 8 + ctx.rng.usize(25);
+            run_op(ctx, &format!("cx many {} {} {}", pool, count, seed));
+        }
+        let seed = ctx.rng.below(1 << 40);
+        run_op(ctx, &format!("cx types 4 6 {}", seed));
+    }
+    // first-call sequences across the instantiations (3-D then 2-D and the converse, one
+    // algorithm then the other), each in a fresh child process
+    let deep2 = |ctx: &mut Ctx, order: u64| {
+        // 2-D cluster that separates only around depth 57 (a cap at the 3-D maximum 42 would merge it)
+        let unit = (2.0f64).powi(-54);
+        let mut c = vec![0.0, 0.0, 8.0, 8.0];
+        for _ in 0..6 {
+            c.push(1.0 + unit * ctx.rng.below(64) as f64);
+            c.push(1.0 + unit * 3.0 * ctx.rng.below(64) as f64);
+        }
+        format!("zc 2 1 {} {} 8 {}", order, [2usize, 3, 8][ctx.rng.usize(3)], fmt_f(&c))
+    };
+    let small = |ctx: &mut Ctx, algo: &str, dim: usize, order: u64| {
+        let n = 6 + ctx.rng.usize(10);
+        let (c, _) = gen_points(ctx, n, dim, true);
+        let parts = 2 + ctx.rng.usize(4);
+        if algo == "zc" {
+            format!("zc {} 1 {} {} {} {}", dim, order, parts, n, fmt_f(&c))
+        } else {
+            let (w, _) = gen_weights(ctx, n, true);
+            format!("hil {} 1 {} {} {} {} {}", dim, order, parts, n, fmt_f(&c), fmt_f(&w))
+        }
+    };
+    for _ in 0..ctx.budget(1, 4) {
+        let (a, b) = (small(ctx, "zc", 3, 5), deep2(ctx, 60));
+        run_op(ctx, &format!("seq | {} | {}", a, b));
+        let (a, b) = (deep2(ctx, 60), small(ctx, "zc", 3, 5));
+        run_op(ctx, &format!("seq | {} | {}", a, b));
+        let (a, b) = (small(ctx, "zc", 3, 42), deep2(ctx, 64));
+        run_op(ctx, &format!("seq | {} | {}", a, b));
+        let (a, b) = (deep2(ctx, 64), small(ctx, "zc", 3, 42));
+        run_op(ctx, &format!("seq | {} | {}", a, b));
+        let (a, b) = (small(ctx, "hil", 3, 21), small(ctx, "hil", 2, 32));
+        run_op(ctx, &format!("seq | {} | {}", a, b));
+        let (a, b) = (small(ctx, "hil", 2, 32), small(ctx, "hil", 3, 21));
+        run_op(ctx, &format!("seq | {} | {}", a, b));
+        let (a, b, c) = (small(ctx, "zc", 2, 12), small(ctx, "hil", 2, 12), small(ctx, "zc", 3, 12));
+        run_op(ctx, &format!("seq | {} | {} | {}", a, b, c));
+        let (a, b, c) = (small(ctx, "hil", 3, 9), small(ctx, "zc", 3, 9), small(ctx, "hil", 2, 9));
+        run_op(ctx, &format!("seq | {} | {} | {}", a, b, c));
+    }
 }
